@@ -41,7 +41,7 @@ fn model(c: &Case) -> Diag {
 fn build_numbered(d: &Diag, numbering: u8, keys: &[u16], stride: usize) -> (Graph, Vec<V>) {
     let n = d.verts.len();
     let mut order: Vec<usize> = (0..n).collect();
-    match numbering % 4 {
+    match numbering.min(3) {
         0 => order.sort_by_key(|&i| (d.verts[i].kind != VK::B, i)),
         1 => order.sort_by_key(|&i| (d.verts[i].kind == VK::B, i)),
         2 => order.sort_by_key(|&i| (keys.get(i).copied().unwrap_or(0), i)),
@@ -50,6 +50,26 @@ fn build_numbered(d: &Diag, numbering: u8, keys: &[u16], stride: usize) -> (Grap
     let mut names = vec![0usize; n];
     for (rank, &i) in order.iter().enumerate() {
         names[i] = rank * stride.max(1) + (stride.max(1) - 1);
+    }
+    match numbering {
+        4 | 6 => {
+            // scattered: distinct names drawn from 0..(stride+1)*n by the keys
+            let mut pool: Vec<usize> = (0..(stride.max(1) + if numbering == 6 { 4 } else { 1 }) * n).collect();
+            for i in 0..n {
+                let k = keys.get(i).copied().unwrap_or((i * 7919) as u16);
+                names[i] = pool.remove(crate::gen::idx(k, pool.len()));
+            }
+        }
+        5 => {
+            // ascending with irregular gaps
+            let mut next = 0usize;
+            for i in 0..n {
+                next += keys.get(i).copied().unwrap_or(0) as usize % (2 * stride.max(1) + 1);
+                names[i] = next;
+                next += 1;
+            }
+        }
+        _ => {}
     }
     let mut g = Graph::new();
     for i in 0..n {
@@ -210,7 +230,7 @@ fn check(c: &Case, obs: &mut Obs) -> Result<(), String> {
     let stride = 1 + (c.stride as usize % 3);
     let mut dims = vec![];
     let mut first_err: Option<(u8, String)> = None;
-    for numbering in [0u8, 1, 2, 3] {
+    for numbering in [0u8, 1, 2, 3, 4, 5, 6] {
         match run_one(&d, numbering, &c.keys, if numbering == 0 { 1 } else { stride }) {
             Ok((dim, _)) => dims.push((numbering, dim)),
             Err(e) => {
@@ -284,7 +304,7 @@ pub fn def(ctx: &Ctx) -> PropertyDef {
     };
     PropertyDef {
         id: "C20",
-        rule: "random diagrams over Z/X spiders with phases 0/pi and plain edges, 0-8 (10) spiders, 0-6 boundaries attached anywhere (several on one spider, isolated spiders included), each built in the hash backend under four vertex numberings (boundaries first, last, interleaved, reversed; with gaps). On the diagram as left by detection_webs (bipartite): every returned web satisfies the harness's own edge-level constraint system (boundary edges unmarked; at every spider its own colour's Pauli on all legs or none and the other Pauli on an even number of legs), the webs are linearly independent over F2, their number equals the dimension of that system's solution space (so they span it), the number does not depend on the numbering, inputs/outputs are restored, no panic. Non-trivial = the web space has dimension >= 1. Distinct by hash of the case.",
+        rule: "random diagrams over Z/X spiders with phases 0/pi and plain edges, 0-8 (10) spiders, 0-6 boundaries attached anywhere (several on one spider, isolated spiders included), each built in the hash backend under seven vertex numberings (boundaries first, last, interleaved, reversed with uniform strides; distinct names scattered over 0..2n-8n; ascending with irregular gaps). On the diagram as left by detection_webs (bipartite): every returned web satisfies the harness's own edge-level constraint system (boundary edges unmarked; at every spider its own colour's Pauli on all legs or none and the other Pauli on an even number of legs), the webs are linearly independent over F2, their number equals the dimension of that system's solution space (so they span it), the number does not depend on the numbering, inputs/outputs are restored, no panic. Non-trivial = the web space has dimension >= 1. Distinct by hash of the case.",
         assumptions: vec![
             "edge-level linear system over F2 written for the harness (2 unknowns per edge), independent of the firing-vector formulation used by the library",
             "boundary-boundary wires and Hadamard edges are outside the property's domain and not generated",
